@@ -39,6 +39,9 @@ C = dict(
         "in list order, that holds a collection of that name); downstream holds the collection names that still have a readable record upstream",
         "only catalogs the source can be in: one live incarnation per name and it is the newest; a tombstoned database has no live collection; "
         "a tombstoned collection has no readable partition record; no re-created database name",
+        "objects of a tombstoned database: the statement is applied only where the database can be identified - Milvus target, the "
+        "database still exists downstream and no other database has a readable collection record of the same name; elsewhere an "
+        "entry is optional (keys below the pseudo database '_tome' are ignored); names of a live database are always checked",
         "'just below the current time' is read as: within the last millisecond before the TSO time; "
         "a partition record still 'created' below a dropped collection incarnation may or may not count as dropped",
         "TLC exhaustiveness holds for the constants in the cfg files only; the large configuration is sampled with tlc -simulate",
